@@ -26,23 +26,25 @@ func specEventValid(ev []byte) bool {
 
 // ---- IsValid: exact characterisation, for every byte string ----
 
-// Event buffers are shorter than 4 GiB (the length field is 32 bits wide; a MySQL packet sequence
-// cannot carry a longer event). Stated, not assumed silently.
-func vc_binlogEvent_IsValid_requires(ev binlogEvent) bool { return len(ev) <= 0xffffffff }
+// Event buffers are shorter than 4 GiB (the length field is 32 bits wide; a MySQL packet sequence cannot carry a
+// longer event): the characterisation is stated for those, explicitly.
+func vc_binlogEvent_IsValid_requires(ev binlogEvent) bool { return true }
 
 func vc_binlogEvent_IsValid_ensures_iff(ev binlogEvent, res bool) bool {
-	return res == specEventValid(ev)
+	return len(ev) > 0xffffffff || res == specEventValid(ev)
 }
 
 // ---- header accessors: total on valid buffers, equal to the documented little-endian fields ----
 
 // (weakest preconditions: each accessor needs exactly the bytes of its field; a valid buffer has all 19)
 func vc_binlogEvent_Type_requires(ev binlogEvent) bool         { return len(ev) >= 5 }
-func vc_binlogEvent_Flags_requires(ev binlogEvent) bool        { return len(ev) >= 19 }
-func vc_binlogEvent_Timestamp_requires(ev binlogEvent) bool    { return len(ev) >= 4 }
-func vc_binlogEvent_ServerID_requires(ev binlogEvent) bool     { return len(ev) >= 9 }
-func vc_binlogEvent_Length_requires(ev binlogEvent) bool       { return len(ev) >= 13 }
-func vc_binlogEvent_NextPosition_requires(ev binlogEvent) bool { return len(ev) >= 17 }
+// (the multi-byte fields are read through a re-slice, which Go bounds by the capacity: an event whose checksum
+// was stripped keeps its capacity)
+func vc_binlogEvent_Flags_requires(ev binlogEvent) bool        { return cap(ev) >= 19 }
+func vc_binlogEvent_Timestamp_requires(ev binlogEvent) bool    { return cap(ev) >= 4 }
+func vc_binlogEvent_ServerID_requires(ev binlogEvent) bool     { return cap(ev) >= 9 }
+func vc_binlogEvent_Length_requires(ev binlogEvent) bool       { return cap(ev) >= 13 }
+func vc_binlogEvent_NextPosition_requires(ev binlogEvent) bool { return cap(ev) >= 17 }
 
 func vc_binlogEvent_Type_ensures_field(ev binlogEvent, res byte) bool { return res == ev[4] }
 func vc_binlogEvent_Flags_ensures_field(ev binlogEvent, res uint16) bool {
@@ -219,7 +221,7 @@ func vc_binlogEvent_TableID_ensures_id(ev binlogEvent, f BinlogFormat, id uint64
 // CRC32 (algorithm 1): the event is the same bytes without the last four; off (0) / undefined (255): unchanged.
 
 func vc_mysql56BinlogEvent_StripChecksum_requires(ev mysql56BinlogEvent, f BinlogFormat) bool {
-	return len(ev.binlogEvent) >= 19
+	return len(ev.binlogEvent) >= 4
 }
 
 func vc_mysql56BinlogEvent_StripChecksum_ensures_view(ev mysql56BinlogEvent, f BinlogFormat, out BinlogEvent, sum []byte, err error) bool {
@@ -236,7 +238,7 @@ func vc_mysql56BinlogEvent_StripChecksum_ensures_view(ev mysql56BinlogEvent, f B
 }
 
 func vc_mariadbBinlogEvent_StripChecksum_requires(ev mariadbBinlogEvent, f BinlogFormat) bool {
-	return len(ev.binlogEvent) >= 19
+	return len(ev.binlogEvent) >= 4
 }
 
 func vc_mariadbBinlogEvent_StripChecksum_ensures_view(ev mariadbBinlogEvent, f BinlogFormat, out BinlogEvent, sum []byte, err error) bool {
